@@ -53,3 +53,33 @@ func H_rendererr(depth, L int, sameNS bool) {
 	verifAssert(fp.Line() == failLine, "C19: render error does not point at the line of the outermost failing command")
 	verifObserve("msg-has-line", strconv.FormatBool(has19(err.Error(), ":"+strconv.Itoa(fp.Line()))))
 }
+
+
+// H_writeerrpos: a render that fails because the writer fails: the body is L pairs of lines
+// "{$x} // c" / "b{$x}" (three single-byte writes per pair; the text starts on the second line); the write that fails is chosen
+// symbolically; the error names the entry file and the line of the command whose write failed.
+func H_writeerrpos(L int) {
+	src := "{namespace a}\n/** @param x */\n{template .t autoescape=\"false\"}\n"
+	for i := 0; i < L; i++ {
+		// (after a line comment the text token starts on its own line)
+		src += "{$x} // c\nb{$x}\n"
+	}
+	src += "{/template}\n"
+	tofu := verifMustCompile(src)
+	w := &faultWriter{}
+	err := tofu.NewRenderer("a.t").Execute(w, data.Map{"x": data.String("v")})
+	if !w.failed {
+		verifAssert(err == nil, "harness: render failed without a write failure")
+		return
+	}
+	verifAssert(err != nil, "C12: a failed write did not surface as a render error")
+	fp := errortypes.ToErrFilePos(err)
+	verifAssert(fp != nil, "C19: render error carries no file position")
+	verifObserveInt("line", fp.Line())
+	verifAssert(fp.File() == "f0.soy", "C19: render error does not name the file of the entry template")
+	want := 4 + 2*(w.atFailure/3)
+	if w.atFailure%3 != 0 {
+		want++
+	}
+	verifAssert(fp.Line() == want, "C19: render error (failed write) does not point at the line of the command being executed")
+}
